@@ -7,6 +7,11 @@ narrow size field from 16 on) and the code units are universally quantified; not
 -/
 import TetlProofs.C04.Lemmas
 import TetlProofs.C04.Defs
+import TetlProofs.C04.Search
+import TetlProofs.C04.Plus
+import TetlProofs.C04.EraseIf
+import TetlProofs.C04.Alias
+import TetlProofs.C04.Replace
 import TetlProofs.C08.Props
 namespace Tetl.C04.Props
 open Tetl Tetl.C04
@@ -247,12 +252,282 @@ theorem overload_arg_eq {o : Str} {co : List Nat} (ho : Rep o co) (a : Arg) (d :
 
 example : (Arg.viewsub [1, 2, 3] 1 NPOS).den [] = some [2, 3] ∧ (Arg.cstr [7, 0, 9]).den [] = some [7] := by decide
 
+/-! ### search members (delegation to `basic_string_view`, proved in C08) -/
+
+/-- `find(str|s|ch, pos = 0)` and `find(s, pos, count)`, every overload (the argument `a` is any of the ways an overload
+    passes its needle, `pos = none` the call without `pos`): no read outside either string, and the result is the lowest
+    `xpos >= pos` at which the needle occurs, `npos` if none — including the wrapped guard of `etl::strings::find` when the
+    needle is longer than the string. -/
+theorem find_eq {s o : Str} {cs co : List Nat} (hs : Rep s cs) (ho : Rep o co) (a : Arg) (d : List Nat)
+    (hd : a.den co = some d) (pos : Option Nat) :
+    s.find o a pos = .ok (C08.Spec.find cs d (pos.getD 0)) := by
+  unfold Str.find
+  rw [chars_rep hs, units_rep ho a d hd]
+  simp only [C08.ok_bind]
+  exact stringsFind_eq cs d _ (by have := hs.1.le; have := hs.1.capLt; omega)
+
+example : (Arg.cstr [98, 0, 99]).den [] = some [98] := by decide
+
+/-- `rfind` with an explicit `pos` (every overload, the `Char` one included): the highest `xpos <= pos` at which the needle
+    occurs.  Excluded class = the calls without `pos` (finding F-C04-rfind-default-pos). -/
+theorem rfind_partial {s o : Str} {cs co : List Nat} (hs : Rep s cs) (ho : Rep o co) (a : Arg) (d : List Nat)
+    (hd : a.den co = some d) (pos : Option Nat) (hpos : pos.isSome = true) :
+    s.rfind o a pos = .ok (C08.Spec.rfind cs d (pos.getD NPOS)) := by
+  obtain ⟨p, rfl⟩ := Option.isSome_iff_exists.mp hpos
+  unfold Str.rfind
+  rw [chars_rep hs, units_rep ho a d hd]
+  simp only [C08.ok_bind, Option.getD_some]
+  cases a <;> first
+    | exact C08.Props.rfind_eq cs d p
+    | (rw [den_ch hd]; exact C08.Props.rfind_char_eq cs _ p)
+
+example : (Arg.ch 97).den [] = some [97] ∧ (some 5 : Option Nat).isSome = true := by decide
+
+/-- what the library does for `rfind` without `pos`: it searches with `pos = 0` (the default written in the header), i.e.
+    it only reports a match at index 0 (see `rfind_default_counterexample`). -/
+theorem rfind_default_is_zero {s o : Str} {cs co : List Nat} (hs : Rep s cs) (ho : Rep o co) (a : Arg) (d : List Nat)
+    (hd : a.den co = some d) :
+    s.rfind o a none = .ok (C08.Spec.rfind cs d 0) := by
+  unfold Str.rfind
+  rw [chars_rep hs, units_rep ho a d hd]
+  simp only [C08.ok_bind, Option.getD_none]
+  cases a <;> first
+    | exact C08.Props.rfind_eq cs d 0
+    | (rw [den_ch hd]; exact C08.Props.rfind_char_eq cs _ 0)
+
+example : Arg.str.den [97, 97] = some [97, 97] := by decide
+
+/-- `find_first_of(…, pos = 0)`, every overload: the lowest `xpos >= pos` whose character is in the set. -/
+theorem find_first_of_eq {s o : Str} {cs co : List Nat} (hs : Rep s cs) (ho : Rep o co) (a : Arg) (d : List Nat)
+    (hd : a.den co = some d) (pos : Option Nat) :
+    s.findFirstOf o a pos = .ok (C08.Spec.findFirstOf cs d (pos.getD 0)) := by
+  unfold Str.findFirstOf
+  rw [chars_rep hs, units_rep ho a d hd]
+  simp only [C08.ok_bind]
+  exact findFirstOf_guard_eq cs d _
+
+example : (Arg.view [97, 0]).den [] = some [97, 0] := by decide
+
+/-- `find_first_not_of(…, pos = 0)`, every overload (the `Char` one has its own loop). -/
+theorem find_first_not_of_eq {s o : Str} {cs co : List Nat} (hs : Rep s cs) (ho : Rep o co) (a : Arg) (d : List Nat)
+    (hd : a.den co = some d) (pos : Option Nat) :
+    s.findFirstNotOf o a pos = .ok (C08.Spec.findFirstNotOf cs d (pos.getD 0)) := by
+  unfold Str.findFirstNotOf
+  rw [chars_rep hs, units_rep ho a d hd]
+  simp only [C08.ok_bind]
+  cases a <;> first
+    | exact C08.Props.find_first_not_of_eq cs d _
+    | (rw [den_ch hd]; exact C08.Props.find_first_not_of_char_eq cs _ _)
+
+example : (Arg.ptrn [97, 98, 99] 2).den [] = some [97, 98] := by decide
+
+/-- `find_last_of(…, pos = npos)`, every overload: the highest `xpos <= pos` whose character is in the set. -/
+theorem find_last_of_eq {s o : Str} {cs co : List Nat} (hs : Rep s cs) (ho : Rep o co) (a : Arg) (d : List Nat)
+    (hd : a.den co = some d) (pos : Option Nat) :
+    s.findLastOf o a pos = .ok (C08.Spec.findLastOf cs d (pos.getD NPOS)) := by
+  unfold Str.findLastOf
+  rw [chars_rep hs, units_rep ho a d hd]
+  simp only [C08.ok_bind]
+  exact C08.Props.find_last_of_eq cs d _
+
+example : (Arg.strsubv 1 NPOS).den [97, 98, 99] = some [98, 99] := by decide
+
+/-- `find_last_not_of(…, pos = npos)`, every overload. -/
+theorem find_last_not_of_eq {s o : Str} {cs co : List Nat} (hs : Rep s cs) (ho : Rep o co) (a : Arg) (d : List Nat)
+    (hd : a.den co = some d) (pos : Option Nat) :
+    s.findLastNotOf o a pos = .ok (C08.Spec.findLastNotOf cs d (pos.getD NPOS)) := by
+  unfold Str.findLastNotOf
+  rw [chars_rep hs, units_rep ho a d hd]
+  simp only [C08.ok_bind]
+  exact C08.Props.find_last_not_of_eq cs d _
+
+example : (Arg.range [1, 2]).den [] = some [1, 2] := by decide
+
+/-- `starts_with(sv|c|s)`: the argument is a prefix of the contents. -/
+theorem starts_with_eq {s o : Str} {cs co : List Nat} (hs : Rep s cs) (ho : Rep o co) (a : Arg) (d : List Nat)
+    (hd : a.den co = some d) :
+    s.startsWith o a = .ok (C08.Spec.startsWith cs d) := by
+  unfold Str.startsWith
+  rw [chars_rep hs, units_rep ho a d hd]
+  simp only [C08.ok_bind]
+  cases a <;> first
+    | exact C08.Props.starts_with_eq cs d
+    | (rw [den_ch hd]; exact C08.Props.starts_with_char_eq cs _)
+
+example : (Arg.ch 0).den [] = some [0] := by decide
+
+/-- `ends_with(sv|c|s)`: the argument is a suffix of the contents. -/
+theorem ends_with_eq {s o : Str} {cs co : List Nat} (hs : Rep s cs) (ho : Rep o co) (a : Arg) (d : List Nat)
+    (hd : a.den co = some d) :
+    s.endsWith o a = .ok (C08.Spec.endsWith cs d) := by
+  unfold Str.endsWith
+  rw [chars_rep hs, units_rep ho a d hd]
+  simp only [C08.ok_bind]
+  have hl : cs.length ≤ C08.NPOS := by
+    have := hs.1.le; have := hs.1.capLt; unfold W64 at *; unfold C08.NPOS; omega
+  cases a <;> first
+    | exact C08.Props.ends_with_eq cs d hl
+    | (rw [den_ch hd]; exact C08.Props.ends_with_char_eq cs _)
+
+example : (Arg.cstr [97]).den [] = some [97] := by decide
+
+/-- `contains(sv|c|s)`: the argument occurs somewhere in the contents. -/
+theorem contains_eq {s o : Str} {cs co : List Nat} (hs : Rep s cs) (ho : Rep o co) (a : Arg) (d : List Nat)
+    (hd : a.den co = some d) :
+    s.contains o a = .ok (C08.Spec.contains cs d) := by
+  unfold Str.contains
+  rw [chars_rep hs, units_rep ho a d hd]
+  simp only [C08.ok_bind]
+  exact C08.Props.contains_eq cs d
+
+example : (Arg.view []).den [] = some [] := by decide
+
+/-! ### copy, element access -/
+
+/-- `copy(dest, count, pos)` for `pos <= size()`: returns `min(count, size() - pos)` and writes exactly the characters of
+    the std substring to `dest` (no read outside the buffer). -/
+theorem copy_eq {s : Str} {cs : List Nat} (h : Rep s cs) (count pos : Nat) (hp : pos ≤ cs.length) :
+    s.copyTo count pos = .ok ((Spec.substr cs pos count).length, Spec.substr cs pos count) :=
+  copyTo_rep h count pos hp
+
+example : (2 : Nat) ≤ [1, 2, 3].length := by decide
+
+/-- `operator[](i)` for `i <= size()` (const and non-const): the i-th character; `i = size()` reads the terminator. -/
+theorem at_eq {s : Str} {cs : List Nat} (h : Rep s cs) (i : Nat) (hi : i ≤ cs.length) :
+    s.at i = .ok ((cs ++ [0])[i]'(by simp; omega)) := at_rep h i hi
+
+example : (2 : Nat) ≤ [7, 8].length := by decide
+
+/-- `front()` of a non-empty string -/
+theorem front_eq {s : Str} {cs : List Nat} (h : Rep s cs) (hne : cs ≠ []) : s.front = .ok (cs.head hne) :=
+  front_rep h hne
+
+/-- `back()` of a non-empty string -/
+theorem back_eq {s : Str} {cs : List Nat} (h : Rep s cs) (hne : cs ≠ []) : s.back = .ok (cs.getLast hne) :=
+  back_rep h hne
+
+example : ([1, 2] : List Nat) ≠ [] := by decide
+
+/-! ### operator+ (five overloads): a well-formed result holding `lhs ++ rhs` cut to the capacity, exactly
+    `lhs ++ rhs` when that fits -/
+
+theorem plus_str_str_eq {a b : Str} {ca cb : List Nat} (ha : Rep a ca) (hb : Rep b cb) :
+    ∃ r, plusStrStr a b = .ok r ∧ r.cap = a.cap ∧ Rep r (ca ++ cb.take (a.cap - ca.length)) ∧
+      (ca.length + cb.length ≤ a.cap → Rep r (ca ++ cb)) := by
+  obtain ⟨r, h1, h2, h3⟩ := plusStrStr_rep ha hb
+  exact ⟨r, h1, h2, h3, fun hf => by rw [List.take_of_length_le (by omega)] at h3; exact h3⟩
+
+theorem plus_str_cstr_eq {a : Str} {ca : List Nat} (ha : Rep a ca) (z : Units) :
+    ∃ r, plusStrCstr a z = .ok r ∧ r.cap = a.cap ∧ Rep r (ca ++ (z.takeWhile (· ≠ 0)).take (a.cap - ca.length)) ∧
+      (ca.length + (z.takeWhile (· ≠ 0)).length ≤ a.cap → Rep r (ca ++ z.takeWhile (· ≠ 0))) := by
+  obtain ⟨r, h1, h2, h3⟩ := plusStrCstr_rep ha z
+  exact ⟨r, h1, h2, h3, fun hf => by rw [List.take_of_length_le (by omega)] at h3; exact h3⟩
+
+theorem plus_str_char_eq {a : Str} {ca : List Nat} (ha : Rep a ca) (c : Nat) :
+    ∃ r, plusStrCh a c = .ok r ∧ r.cap = a.cap ∧ Rep r (ca ++ List.replicate (min 1 (a.cap - ca.length)) c) ∧
+      (ca.length + 1 ≤ a.cap → Rep r (ca ++ [c])) := by
+  obtain ⟨r, h1, h2, h3⟩ := plusStrCh_rep ha c
+  refine ⟨r, h1, h2, h3, fun hf => ?_⟩
+  have : min 1 (a.cap - ca.length) = 1 := by omega
+  rw [this] at h3; exact h3
+
+/-- `operator+(Char const*, string)`; the left operand is first made a string: `\pre length(lhs) <= Capacity` -/
+theorem plus_cstr_str_eq {b : Str} {cb : List Nat} (hb : Rep b cb) (z : Units) (hz : (z.takeWhile (· ≠ 0)).length ≤ b.cap) :
+    ∃ r, plusCstrStr z b = .ok r ∧ r.cap = b.cap ∧
+      Rep r (z.takeWhile (· ≠ 0) ++ cb.take (b.cap - (z.takeWhile (· ≠ 0)).length)) ∧
+      ((z.takeWhile (· ≠ 0)).length + cb.length ≤ b.cap → Rep r (z.takeWhile (· ≠ 0) ++ cb)) := by
+  obtain ⟨r, h1, h2, h3⟩ := plusCstrStr_rep hb z hz
+  exact ⟨r, h1, h2, h3, fun hf => by rw [List.take_of_length_le (by omega)] at h3; exact h3⟩
+
+example : (([120, 0, 121] : Units).takeWhile (· ≠ 0)).length ≤ 3 := by decide
+
+/-- `operator+(Char, string)`: `\pre 1 <= Capacity` -/
+theorem plus_char_str_eq {b : Str} {cb : List Nat} (hb : Rep b cb) (c : Nat) (h1 : 1 ≤ b.cap) :
+    ∃ r, plusChStr c b = .ok r ∧ r.cap = b.cap ∧ Rep r ([c] ++ cb.take (b.cap - 1)) ∧
+      (1 + cb.length ≤ b.cap → Rep r ([c] ++ cb)) := by
+  obtain ⟨r, h2, h3, h4⟩ := plusChStr_rep hb c h1
+  exact ⟨r, h2, h3, h4, fun hf => by rw [List.take_of_length_le (by omega)] at h4; exact h4⟩
+
+example : (1 : Nat) ≤ (Str.mk0 1).cap := by decide
+
+/-! ### free `etl::erase_if` -/
+
+/-- `etl::erase_if(c, pred)` for every predicate: `.ok`, well formed, the contents without the characters satisfying
+    `pred` in their original order, and the number removed as return value. -/
+theorem erase_if_eq {s : Str} {cs : List Nat} (h : Rep s cs) (p : Nat → Bool) :
+    ∃ s', s.eraseIf p = .ok (s', cs.length - (cs.filter (fun x => !p x)).length) ∧ s'.cap = s.cap ∧
+      Rep s' (cs.filter (fun x => !p x)) := eraseIf_rep h p
+
+/-! ### self-aliasing arguments -/
+/-- **Aliasing is harmless.**  A member called with (a part of) the string it modifies — `s.append(s)`, `s += s`,
+    `s.append(s, pos, count)`, `s.append(s.data()+off, n)`, `s.insert(i, s)`, `s.insert(i, s, pos, count)`,
+    `s.insert(i, s.data()+off, n)`, `s.assign(s)`, `s = s`, `s.assign(s, pos, count)`, `s.assign(s.data()+off, n)` —
+    whose loops read the very buffer they write, returns `.ok`, stays well formed and leaves exactly what the same call
+    with an independent copy `d` of the argument's characters leaves (cut to the capacity; the std result when it fits).
+    `std::basic_string` guarantees the same. -/
+theorem self_alias_eq {s : Str} {cs : List Nat} (h : Rep s cs) (op : SelfOp) (d : List Nat)
+    (hform : op.arg.isSelfForm = true) (hd : op.arg.den cs = some d) (hp : Pre s.cap cs (op.plain d) = true) :
+    ∃ s', s.selfStep op = .ok s' ∧ s'.cap = s.cap ∧ Rep s' (Spec.stepClamped s.cap cs (op.plain d)) ∧
+      (Spec.fits s.cap cs (op.plain d) = true → Rep s' (Spec.step cs (op.plain d)).1) := by
+  obtain ⟨s', h1, h2, h3⟩ := selfStep_rep h op d hform hd hp
+  exact ⟨s', h1, h2, h3, fun hf => by rw [stepClamped_of_fits _ _ _ hf] at h3; exact h3⟩
+
+example : (SelfOp.insert 1 (.ptr 1 1)).arg.isSelfForm = true ∧ (SelfOp.insert 1 (.ptr 1 1)).arg.den [97, 98] = some [98] ∧
+    Pre 3 [97, 98] ((SelfOp.insert 1 (.ptr 1 1)).plain [98]) = true ∧
+    Pre 3 [97, 98] ((SelfOp.append .str).plain [97, 98]) = true ∧
+    Spec.fits 3 [97, 98] ((SelfOp.append .str).plain [97, 98]) = false := by decide
+
 /-! ### known findings: the failing inputs, kernel-checked on the model -/
 
 /-- F-C04-rfind-default-pos: `rfind` called without `pos` uses the header's default 0; std's default is npos.
     ("aa".rfind("a") gives 0, std 1.)  With an explicit pos the member is the C08 model of `rfind`. -/
 theorem rfind_default_counterexample :
     C08.rfind [97, 97] [97] 0 ≠ .ok (C08.Spec.rfind [97, 97] [97] NPOS) := by decide
+
+/-- F-C04-replace-overwrites-only, what the family does: on well-ordered ranges `replace` overwrites the first
+    `min (l - f) (sl - sf)` characters of `[f, l)` with the front of the replacement and keeps size and terminator (no access
+    outside the buffer). -/
+theorem replace_overwrites {s : Str} {cs : List Nat} (h : Rep s cs) (f l : Nat) (arr : Units) (sf sl : Nat)
+    (hfl : f ≤ l) (hl : l ≤ cs.length) (hs : sf ≤ sl) (hsl : sl ≤ arr.length) :
+    ∃ s', s.replaceCore f l arr sf sl = .ok s' ∧ s'.cap = s.cap ∧
+      Rep s' (cs.take f ++ Spec.seg arr sf (min (l - f) (sl - sf)) ++ cs.drop (f + min (l - f) (sl - sf))) :=
+  replaceCore_rep h f l arr sf sl hfl hl hs hsl
+
+example : (1 : Nat) ≤ 2 ∧ 2 ≤ [97, 98, 99].length ∧ (0 : Nat) ≤ 3 ∧ 3 ≤ [120, 121, 122].length := by decide
+
+/-- `replace(pos, count, str)` outside the excluded class (replacement length = replaced length, `count <= size() - pos`):
+    the std result. -/
+theorem replace_partial {s : Str} {cs : List Nat} (h : Rep s cs) (pos count : Nat) (arr : Units) (sf sl : Nat)
+    (hp : pos ≤ cs.length) (hc : count ≤ cs.length - pos) (hs : sf ≤ sl) (hsl : sl ≤ arr.length) (hlen : sl - sf = count) :
+    ∃ s', s.replaceA pos count arr sf sl = .ok s' ∧ s'.cap = s.cap ∧
+      Rep s' (Spec.replace cs pos count (Spec.seg arr sf (sl - sf))) :=
+  replaceA_partial h pos count arr sf sl hp hc hs hsl hlen
+
+/-- `replace(pos, count, s, count2)`, `replace(pos, count, s)`, `replace(pos, count, str, pos2, count2)`, same class. -/
+theorem replace_ptr_partial {s : Str} {cs : List Nat} (h : Rep s cs) (pos count : Nat) (arr : Units) (sf sl : Nat)
+    (hp : pos ≤ cs.length) (hc : count ≤ cs.length - pos) (hs : sf ≤ sl) (hsl : sl ≤ arr.length) (hlen : sl - sf = count) :
+    ∃ s', s.replaceB pos count arr sf sl = .ok s' ∧ s'.cap = s.cap ∧
+      Rep s' (Spec.replace cs pos count (Spec.seg arr sf (sl - sf))) :=
+  replaceB_partial h pos count arr sf sl hp hc hs hsl hlen
+
+example : (1 : Nat) ≤ [97, 98, 99].length ∧ (2 : Nat) ≤ [97, 98, 99].length - 1 ∧ (1 : Nat) ≤ 3 ∧
+    3 ≤ [120, 121, 122].length ∧ 3 - 1 = 2 := by decide
+
+/-- `replace(first, last, str|s|s,count2)`, same class. -/
+theorem replace_iter_partial {s : Str} {cs : List Nat} (h : Rep s cs) (first last : Nat) (arr : Units) (sf sl : Nat)
+    (h1 : first ≤ last) (h2 : last ≤ cs.length) (hs : sf ≤ sl) (hsl : sl ≤ arr.length) (hlen : sl - sf = last - first) :
+    ∃ s', s.replaceIt first last arr sf sl = .ok s' ∧ s'.cap = s.cap ∧
+      Rep s' (Spec.replace cs first (last - first) (Spec.seg arr sf (sl - sf))) :=
+  replaceIt_partial h first last arr sf sl h1 h2 hs hsl hlen
+
+/-- `replace(first, last, count2, ch)`, same class. -/
+theorem replace_iter_fill_partial {s : Str} {cs : List Nat} (h : Rep s cs) (first last count2 ch : Nat)
+    (h1 : first ≤ last) (h2 : last ≤ cs.length) (hlen : count2 = last - first) :
+    ∃ s', s.replaceItFill first last count2 ch = .ok s' ∧ s'.cap = s.cap ∧
+      Rep s' (Spec.replace cs first (last - first) (List.replicate count2 ch)) :=
+  replaceItFill_partial h first last count2 ch h1 h2 hlen
+
+example : (0 : Nat) ≤ 2 ∧ 2 ≤ [97, 98, 99].length ∧ (2 : Nat) = 2 - 0 := by decide
 
 /-- F-C04-replace-overwrites-only: `replace(pos, count, str)` overwrites in place and keeps the size:
     "ab".replace(0, 1, "xyz") leaves "xb" (std: "xyzb"). -/
